@@ -191,6 +191,11 @@ def run(chk, repo, tier):
     chk.clause('C02-g', 'exactly zero outside the evaluated window: fields are inserted into zeros and nothing else is added', 4)
     chk.clause('C02-h', 'axis-swap equivariance of the extent helpers', 10)
     chk.clause('C02-i', 'the un-masked output window is centred', 2)
+    chk.clause('C02-k', 'the transform the propagator calls evaluates the Fraunhofer kernel: phase -2*pi*i*alpha*(u - shift)(x + offset) '
+                        'per axis with origins at floor(n/2), unitary gain', 8)
+    from .common import Remap
+    from . import c01
+    c01.run_check(Remap(chk, {'C01-a': 'C02-k', 'C01-c': 'C02-k', 'C01-d': 'C02-k', 'C01-e': 'C02-k', 'C01-g': 'C02-k'}), repo, tier)
     chk.not_decided += ['absolute complex field values', 'placement errors applied symmetrically to both axes '
                         'that also preserve every extent identity']
     alpha_rule(chk, repo, 'C02-a')
